@@ -21,10 +21,18 @@
  *                            (oracle) —, so the outcome is deterministic and compared state for state with the model
  *   kill <a> <b> | unkill <a>   the destructor of <a> calls del(<b>) (removals while a sweep / a removal is in progress)
  *   delnull                  del(NULL) at top level
- *   killnull <a>             the destructor of <a> also calls del(NULL), after its kills.  Harmless under del / del_raw; during
- *                            GC_Sweep's finalisation GC_Rem_Ptr matches NULL against a struck-off slot of the pending list and
- *                            runs dealloc(destruct(NULL)): known finding KF-C17-null-del-sweep (X sig=reg-null-del-sweep),
- *                            `O <op> abort`, and the run of the op file ends there (the collector is left mid-sweep)
+ *   killnull <a>             the destructor of <a> also calls del(NULL), after its kills: a no-op under del / del_raw and during
+ *                            GC_Sweep's finalisation (GC_Rem_Ptr returns at once for NULL since fix d3e4e44).  The behaviour before
+ *                            the fix — GC_Rem_Ptr(NULL) matches a struck-off slot of the pending list and runs
+ *                            dealloc(destruct(NULL)) — is an ordinary violation: X sig=reg-exception, `O <op> abort`, and the run
+ *                            of the op file ends there (the collector is left mid-sweep)
+ *   stalemark <ids…>         a mark phase that an exception left: GC_Mark_Item on each listed object and no sweep — the mark bits
+ *                            stay.  sweep / sweepmod (GC_Sweep on the bits as they are) keep such an object; collect / tnewx
+ *                            (the real GC_Mark) must start from clear bits (GC_Unmark, fix d8f0c4f): checked from inside GC_Mark
+ *                            by the Mark instance of the probe type when the root loop reaches a registered root (a point at
+ *                            which nothing but thread-local storage and earlier roots has been marked, so the test does not
+ *                            depend on what the stack scan finds): a stale bit still set there is X sig=reg-stale-mark, and
+ *                            the object is then kept marked, as the code keeps it (ledger: released).  A rehash drops the bits.
  *   dealloc <id>             dealloc / dealloc_root (src/Alloc.c) of the object: the collector is not told.  For a registered
  *                            object this is known finding KF-C17-dealloc-stale (X sig=reg-dealloc-stale for every consequence
  *                            the oracle sees: stale member, count, root flag after the address is allocated again)
@@ -33,7 +41,7 @@
  *                            registry then gets wrong is reported as X sig=reg-stopped, known finding KF-C17-stopped).
  *                            Without `strict` the ledger follows the code in the stopped window (theorem C17_registry_exact).
  *   stop | start             stop / start the collector
- * `killnull`-in-a-sweep, `dealloc` of a registered object and `strict` are never generated: witnesses only (corpus/kf_c17_*).
+ * `dealloc` of a registered object and `strict` are never generated: witnesses only (corpus/kf_c17_*).
  *   dumpevery <k>            print the slot array (and run the oracle) after every k-th op only
  *   ideal <lo> <hi>          GC_Ideal_Size(n) for lo <= n < hi as change points
  * After every op:  O <op> <result> fin=<ids deallocated, in order> | n= ni= mi= lo= hi= run= e=<idx:home:id:root:marked,…>
@@ -59,7 +67,8 @@ static void* v_realloc(void* p, size_t n) { if (v_realloc_hook) v_realloc_hook(p
 
 struct Probe { int64_t id; };
 static var Probe_Alloc(void); static void Probe_Dealloc(var self); static void Probe_Destruct(var self);
-var Probe = Cello(Probe, Instance(Alloc, Probe_Alloc, Probe_Dealloc), Instance(New, NULL, Probe_Destruct));
+static void Probe_Mark(var self, var gc, void(*f)(var,void*));
+var Probe = Cello(Probe, Instance(Alloc, Probe_Alloc, Probe_Dealloc), Instance(New, NULL, Probe_Destruct), Instance(Mark, Probe_Mark));
 
 enum { NEVER = 0, MANAGED = 1, UNMANAGED = 2, DEAD = 3 };
 static int64_t id_u[MAXID]; static char id_known[MAXID]; static char state[MAXID]; static char rootflag[MAXID];
@@ -68,6 +77,13 @@ static int* kills[MAXID]; static int nkills[MAXID];
 static char killnull[MAXID];          /* destructor also calls del(NULL) */
 static char stale[MAXID];             /* dealloc'ed while registered (KF-C17-dealloc-stale) */
 static char stopped_touched[MAXID];   /* allocated / deleted while stopped under `strict` (KF-C17-stopped) */
+static char stalemarked[MAXID];       /* `stalemark` set the mark bit of this (managed) object and nothing has cleared it since */
+static int stale_pending = 0;         /* some stalemarked[] may be set */
+static size_t stale_nslots = 0;       /* table size when the bits were set: a rehash drops them */
+static int probe_armed = 0, probe_result = 0;   /* inside GC_Mark: 0 no root reached, 1 stale bits were clear, 2 a stale bit was still set */
+static struct GC* probe_gc;
+static struct GC* the_gc;
+static size_t n_null_in_sweep = 0, n_probe_clear = 0, n_probe_set = 0;   /* statistics */
 static int dealloc_taint = 0, strict = 0, strict_taint = 0;
 static int maxid = -1;
 static int want_id = -1;
@@ -106,8 +122,30 @@ static void Probe_Destruct(var self) {
   int id = (int)((struct Probe*)self)->id;
   if (!kills_enabled) return;
   for (int k = 0; k < nkills[id]; k++) del(addr_of(kills[id][k]));
-  if (killnull[id]) del(NULL);
+  if (killnull[id]) { if (the_gc && the_gc->freenum) n_null_in_sweep++; del(NULL); }
 }
+
+/* Mark instance of the probe type: called by GC_Recurse.  While armed (the real GC_Mark of `collect` / `tnewx` with stale
+   mark bits pending), on the first registered *root* it is called for — that is the root loop of GC_Mark, before the stack
+   scan — it looks at the entries `stalemark` marked: GC_Mark must have cleared them (GC_Unmark) */
+static void Probe_Mark(var self, var gc_, void(*f)(var,void*)) {
+  (void)gc_; (void)f;
+  if (!probe_armed || probe_result) return;
+  struct GC* gc = probe_gc;
+  int isroot = 0;
+  for (size_t i = 0; i < gc->nslots; i++) if (gc->entries[i].hash && gc->entries[i].ptr == self) { isroot = gc->entries[i].root; break; }
+  if (!isroot) return;
+  probe_result = 1; n_probe_clear++;
+  for (size_t i = 0; i < gc->nslots; i++) {
+    struct GCEntry* e = &gc->entries[i];
+    if (e->hash == 0 || e->root) continue;
+    uintptr_t p = (uintptr_t)e->ptr;
+    if (p < ADDR0 || (p - ADDR0) % 8) continue;
+    int id = (int)((struct Probe*)e->ptr)->id;
+    if (id >= 0 && id <= maxid && stalemarked[id] && e->marked) { probe_result = 2; n_probe_clear--; n_probe_set++; return; }
+  }
+}
+static void stale_clear(void) { if (stale_pending) { memset(stalemarked, 0, (size_t)maxid + 1); stale_pending = 0; } }
 
 /* ---- printing ---- */
 static uint64_t fnv(const char* s, size_t n) { uint64_t h = 14695981039346656037ULL; for (size_t i = 0; i < n; i++) { h ^= (unsigned char)s[i]; h *= 1099511628211ULL; } return h; }
@@ -151,7 +189,9 @@ static void oracle(struct GC* gc, size_t line, const char* op) {
     uintptr_t p = (uintptr_t)e->ptr;
     size_t home = GC_Hash(e->ptr) % gc->nslots;
     if (e->hash != home + 1) { X("sig=reg-inv line=%zu what=after %s slot %zu stores home %llu, hash gives %zu", line, op, i, (unsigned long long)e->hash - 1, home); n_x++; }
-    if (e->marked) { X("sig=reg-mark line=%zu what=after %s slot %zu still marked", line, op, i); n_x++; }
+    int stale_ok = 0;
+    if (e->marked && stale_pending && p >= ADDR0 && (p - ADDR0) % 8 == 0) { int sid = (int)((struct Probe*)e->ptr)->id; stale_ok = sid >= 0 && sid <= maxid && stalemarked[sid]; }
+    if (e->marked && !stale_ok) { X("sig=reg-mark line=%zu what=after %s slot %zu still marked", line, op, i); n_x++; }
     size_t d = (i + gc->nslots - home) % gc->nslots;
     if (d > max_dist) max_dist = d;
     if (i < home) n_wrapped++;
@@ -205,6 +245,7 @@ static void emit(struct GC* gc, size_t line, const char* op, const char* res) {
   since = due ? 0 : since + 1;
   char lo[40], hi[40];
   if (gc->nslots > max_slots) max_slots = gc->nslots;
+  if (stale_pending && gc->nslots != stale_nslots) stale_clear();     /* GC_Rehash re-inserts every entry unmarked */
   if (due) {
     n_dumps++;
     sb_reset(); size_t cnt = 0;
@@ -278,13 +319,14 @@ static void tnew_child(struct GC* gc, int id, size_t line) {
   _exit(0);
 }
 
-/* an exception left the collector (the only known way: dealloc(destruct(NULL)) from GC_Rem_Ptr during a sweep): report,
-   print the observation the model's `none` corresponds to, and stop — the collector is left in the middle of GC_Sweep */
+/* an exception left the collector (the way known before fix d3e4e44: dealloc(destruct(NULL)) from GC_Rem_Ptr during a sweep):
+   an ordinary violation; print the observation the model's `none` corresponds to, and stop — the collector is left in the
+   middle of GC_Sweep */
 static void aborted(struct GC* gc, size_t line, const char* op, var exc) {
   int anynull = 0;
   for (int k = 0; k <= maxid; k++) if (killnull[k]) anynull = 1;
   if (exc == ValueError && anynull && gc->freenum > 0)
-    X("sig=reg-null-del-sweep line=%zu what=%s: a destructor called del(NULL) while GC_Sweep was finalising (%zu objects on the pending list): GC_Rem_Ptr matched a struck-off slot and ran dealloc(destruct(NULL)) -> ValueError inside the collector", line, op, (size_t)gc->freenum);
+    X("sig=reg-exception line=%zu what=%s raised ValueError inside the collector: a destructor called del(NULL) while GC_Sweep was finalising (%zu objects on the pending list) and GC_Rem_Ptr matched a struck-off slot and ran dealloc(destruct(NULL))", line, op, (size_t)gc->freenum);
   else
     X("sig=reg-exception line=%zu what=%s raised %s inside the collector", line, op, v_exc_name(exc));
   O("%s abort", op);
@@ -306,6 +348,7 @@ static void tnewx_hook(void* p, size_t n) {
     int id = (int)((struct Probe*)e->ptr)->id;
     int must = e->root || hook_listed[id] || id == hook_new_id;
     if (must && !e->marked) { X("sig=reg-markreal line=%zu what=GC_Mark (threshold path) left %s object %d unmarked", hook_line, e->root ? "root" : id == hook_new_id ? "new" : "stack-referenced", id); n_x++; }
+    if (probe_result == 2 && stalemarked[id] && e->marked) must = 1;     /* GC_Mark did not clear it: the code keeps the object */
     e->marked = must;            /* drop marks that come from stale words on the C stack */
   }
 }
@@ -316,7 +359,7 @@ int main(int argc, char** argv) {
   size_t nl; char** lines = v_read_lines(argv[1], &nl);
   /* a registry without an empty slot makes GC_Set_Ptr / GC_Mem_Ptr spin for ever: turn that into a quick failure */
   alarm(120 + (unsigned)(nl / 200));
-  struct GC* gc = current(GC);
+  struct GC* gc = current(GC); the_gc = gc;
   volatile var held[LISTMAX + 1];
   for (int i = 0; i <= LISTMAX; i++) held[i] = NULL;
   volatile var heldx[202];
@@ -366,7 +409,7 @@ int main(int argc, char** argv) {
         int st = 0; waitpid(pid, &st, 0);
         if (!WIFEXITED(st) || WEXITSTATUS(st) != 0) { X("sig=reg-tnew line=%zu what=threshold collection ended with status %d", line, st); n_x++; }
       }
-      want_id = id;
+      want_id = id; stalemarked[id] = 0;
       if (is_raw) {
         var p = alloc_raw(Probe); (void)p;
         state[id] = UNMANAGED; rootflag[id] = 0;
@@ -389,7 +432,7 @@ int main(int argc, char** argv) {
       if (!okargs || !register_id(id, big[1]) || state[id] == MANAGED || state[id] == UNMANAGED) { O("bad-op"); continue; }
       memset(listed, 0, (size_t)maxid + 1);
       for (size_t k = 2; k < na; k++) listed[args[k]] = 1;
-      want_id = id;
+      want_id = id; stalemarked[id] = 0;
       int running = gc->running;
       if (running) {
         /* ledger: the new object is registered first; then what the collection triggered by this allocation must release
@@ -404,10 +447,15 @@ int main(int argc, char** argv) {
         heldx[na - 2] = addr_of(id);
         hook_gc = gc; hook_listed = listed; hook_new_id = id; hook_line = line; hook_fired = 0;
         v_realloc_hook = tnewx_hook;
+        probe_result = 0; probe_gc = gc; probe_armed = stale_pending;
       }
       var p = NULL;
       GUARD(gc, line, op, p = alloc(Probe));
-      v_realloc_hook = NULL;
+      v_realloc_hook = NULL; probe_armed = 0;
+      if (running) {
+        if (probe_result == 2) { X("sig=reg-stale-mark line=%zu what=%s: GC_Mark (threshold path) reached its root loop with a mark bit still set that an earlier, interrupted mark phase left: the collection does not start from clear mark bits", line, op); n_x++; }
+        probe_result = 0; stale_clear();
+      }
       for (size_t k = 0; k <= na - 2; k++) heldx[k] = NULL;
       if (p != addr_of(id)) { X("sig=reg-harness line=%zu what=allocation did not use the probe allocator", line); n_x++; }
       if (running && hook_fired != 1) { X("sig=reg-harness line=%zu what=the hook between GC_Mark and GC_Sweep fired %d times", line, hook_fired); n_x++; }
@@ -454,19 +502,25 @@ int main(int argc, char** argv) {
       /* ledger: what this collection must release */
       nwork = 0;
       for (int id = 0; id <= maxid; id++)
-        if (id_known[id] && state[id] == MANAGED && !rootflag[id] && !listed[id]) { state[id] = DEAD; expdealloc[id]++; work[nwork++] = id; }
+        if (id_known[id] && state[id] == MANAGED && !rootflag[id] && !listed[id] && !(!is_collect && stale_pending && stalemarked[id]))
+          { state[id] = DEAD; expdealloc[id]++; work[nwork++] = id; }      /* GC_Sweep alone keeps what is marked; GC_Mark starts from clear bits */
       ledger_finalise_closure(gc->running);
       if (is_collect) {
         for (size_t k = 0; k < na; k++) held[k] = addr_of(args[k]);
+        probe_result = 0; probe_gc = gc; probe_armed = stale_pending;
         GC_Mark(gc);
+        probe_armed = 0;
+        if (probe_result == 2) { X("sig=reg-stale-mark line=%zu what=%s: GC_Mark reached its root loop with a mark bit still set that an earlier, interrupted mark phase left: the collection does not start from clear mark bits", line, op); n_x++; }
         for (size_t i = 0; i < gc->nslots; i++) {
           struct GCEntry* e = &gc->entries[i];
           if (e->hash == 0) continue;
           int id = (int)((struct Probe*)e->ptr)->id;
           int must = e->root || listed[id];
           if (must && !e->marked) { X("sig=reg-markreal line=%zu what=GC_Mark left %s object %d unmarked", line, e->root ? "root" : "stack-referenced", id); n_x++; }
+          if (probe_result == 2 && stalemarked[id] && e->marked) must = 1;     /* GC_Mark did not clear it: the code keeps the object */
           e->marked = must;            /* drop marks that come from stale words on the C stack */
         }
+        probe_result = 0;
         for (size_t k = 0; k < na; k++) held[k] = NULL;
       } else if (is_mod) {
         for (int id = 0; id <= maxid; id++) if (listed[id]) GC_Mark_Item(gc, addr_of(id));
@@ -474,6 +528,17 @@ int main(int argc, char** argv) {
         for (size_t k = 0; k < na; k++) GC_Mark_Item(gc, addr_of(args[k]));
       }
       GUARD(gc, line, op, GC_Sweep(gc));
+      stale_clear();               /* the second loop of GC_Sweep clears every mark bit */
+      emit(gc, line, op, "ok");
+    } else if (!strcmp(op, "stalemark")) {
+      int okargs = na <= LISTMAX;
+      if (okargs) for (size_t k = 0; k < na; k++) if (args[k] >= MAXID || !id_known[args[k]]) okargs = 0;
+      if (!okargs) { O("bad-op"); continue; }
+      if (!stale_pending) stale_nslots = gc->nslots;
+      for (size_t k = 0; k < na; k++) {
+        GC_Mark_Item(gc, addr_of(args[k]));
+        if (state[args[k]] == MANAGED) { stalemarked[args[k]] = 1; stale_pending = 1; }
+      }
       emit(gc, line, op, "ok");
     } else if (!strcmp(op, "stop") && na == 0) { stop(current(GC)); emit(gc, line, op, "ok"); }
     else if (!strcmp(op, "start") && na == 0) { start(current(GC)); emit(gc, line, op, "ok"); }
@@ -494,7 +559,7 @@ int main(int argc, char** argv) {
       strict = 1; O("strict");
     } else O("bad-op");
   }
-  I("ops=%zu dumps=%zu oracle_failures=%zu max_slots=%zu max_probe_distance=%zu wrapped_entries_seen=%zu", n_ops, n_dumps, n_x, max_slots, max_dist, n_wrapped);
+  I("ops=%zu dumps=%zu oracle_failures=%zu max_slots=%zu max_probe_distance=%zu wrapped_entries_seen=%zu del_null_during_sweep=%zu gc_mark_probes_clear=%zu gc_mark_probes_stale=%zu", n_ops, n_dumps, n_x, max_slots, max_dist, n_wrapped, n_null_in_sweep, n_probe_clear, n_probe_set);
   kills_enabled = 0;   /* teardown (Cello_Exit sweeps what is left) runs plain destructors */
   return 0;
 }
